@@ -46,8 +46,8 @@ ACTIONS = [
 # sigmas (AbsFix) and take the wrong logarithm (LogFix); the invariants NonNegative / TransLaw then are probes
 # that must fail.  After the corresponding repair of tf_pwa/err_num.py set the flag to True: the spec's Rule
 # follows the repaired code and the probe becomes an ordinary invariant of the main run.
-SPEC_ABS_FIX = False
-SPEC_LOG_FIX = False
+SPEC_ABS_FIX = True
+SPEC_LOG_FIX = True
 MAIN_INVARIANTS = ["Magnitude", "ValueAgrees", "NegCharacterised", "CalNonNeg", "TransCharacterised", "BoundCongruence"]
 
 # tolerances (measured margins on the unchanged tree are recorded in the evidence)
